@@ -89,10 +89,15 @@ var (
 	armedPoint atomic.Value // string
 	parkedCh   = make(chan struct{}, 1)
 	releaseCh  = make(chan struct{})
+	// a second, independent slot: two goroutines held at (the same or different) yield points at once
+	armedPoint2 atomic.Value // string
+	parkedCh2   = make(chan struct{}, 1)
+	releaseCh2  = make(chan struct{})
 )
 
 func installHook() {
 	armedPoint.Store("")
+	armedPoint2.Store("")
 	verifhook.Set(func(point string) {
 		switch point {
 		case "bus.send.afterSnapshot":
@@ -105,6 +110,9 @@ func installHook() {
 		if p, _ := armedPoint.Load().(string); p != "" && p == point && armedPoint.CompareAndSwap(p, "") {
 			parkedCh <- struct{}{}
 			<-releaseCh
+		} else if p, _ := armedPoint2.Load().(string); p != "" && p == point && armedPoint2.CompareAndSwap(p, "") {
+			parkedCh2 <- struct{}{}
+			<-releaseCh2
 		}
 	})
 }
@@ -131,6 +139,14 @@ type real struct {
 	pidEnded    bool                // a PullID stream ended during the deliveries being collected
 	// subscriptions a scenario has opened (their listener is on the bus) but not yet entered in subs
 	unregistered int
+	// held subscriptions (their consumer is not receiving): how many changes the writer's calls say their
+	// forwarder is holding
+	held map[string]int
+	// ... and how many calls that failed after putting an event on the bus may have left theirs with it
+	heldMaybe map[string]int
+	// the write being collected returned an error although it put an event on the bus: who has been handed
+	// it is not known from the call, the subscribers are given a short time instead
+	partial bool
 }
 
 // pidInfo: a PullID subscription is observed together with a hidden plain Pull with the same options
@@ -153,6 +169,38 @@ type realSub struct {
 	notify chan struct{}
 	done   chan struct{}
 	goid   int64 // the goroutine that called Pull (race scenarios)
+	// hold / resume: the collector stops receiving (it is NOT inside a receive while held)
+	holdCh, resumeCh chan struct{}
+}
+
+// takeWithin returns up to n more events, waiting at most d for them (no stall is recorded).
+func (s *realSub) takeWithin(n int, d time.Duration) []string {
+	deadline := time.After(d)
+	for {
+		s.mu.Lock()
+		if len(s.got)-s.taken >= n {
+			out := append([]string(nil), s.got[s.taken:s.taken+n]...)
+			s.taken += n
+			s.mu.Unlock()
+			return out
+		}
+		s.mu.Unlock()
+		select {
+		case <-s.notify:
+		case <-s.done: // every event received has been pushed
+			s.mu.Lock()
+			out := append([]string(nil), s.got[s.taken:]...)
+			s.taken = len(s.got)
+			s.mu.Unlock()
+			return out
+		case <-deadline:
+			s.mu.Lock()
+			out := append([]string(nil), s.got[s.taken:]...)
+			s.taken = len(s.got)
+			s.mu.Unlock()
+			return out
+		}
+	}
 }
 
 func (s *realSub) push(e string) {
@@ -174,8 +222,12 @@ var (
 
 // noteTimeout: an expected delivery did not arrive within the bound.
 func noteTimeout() {
-	if takeTimeouts++; takeTimeouts >= 4 {
+	takeTimeouts++
+	switch {
+	case takeTimeouts >= 4:
 		takeBound = 50 * time.Millisecond
+	default:
+		takeBound = time.Second // the run is failing already: the next ones wait less
 	}
 }
 
@@ -272,10 +324,19 @@ func (r *real) subscribe(o Op) string {
 			nSeed = 1
 		}
 		ch := r.val.Pull(ctx, rs...)
+		sb.holdCh, sb.resumeCh = make(chan struct{}), make(chan struct{})
 		go func() {
 			defer close(sb.done)
-			for e := range ch {
-				sb.push(showVEventFlags(e))
+			for {
+				select {
+				case e, ok := <-ch:
+					if !ok {
+						return
+					}
+					sb.push(showVEventFlags(e))
+				case <-sb.holdCh:
+					<-sb.resumeCh
+				}
 			}
 		}()
 	} else {
@@ -302,6 +363,10 @@ func (r *real) unsubscribe(o Op) string {
 		return "ok"
 	}
 	sb.cancel()
+	if _, h := r.held[name]; h {
+		delete(r.held, name)
+		sb.resumeCh <- struct{}{}
+	}
 	select {
 	case <-sb.done: // the Pull goroutine has ended: no later equivalence calls from it
 	case <-time.After(waitBound):
@@ -337,6 +402,20 @@ func (r *real) deliveries(sends int) string {
 		sb := r.subs[name]
 		if pi := r.pids[name]; pi != nil {
 			parts = append(parts, name+"="+r.pidDeliveries(sb, pi, sends))
+			continue
+		}
+		if _, h := r.held[name]; h {
+			// its consumer is not receiving: what a successful call put on the bus is with its forwarder
+			if !r.partial {
+				r.held[name] += sends
+			} else {
+				r.heldMaybe[name] += sends
+			}
+			parts = append(parts, name+"=[]")
+			continue
+		}
+		if r.partial && r.cmp == nil {
+			parts = append(parts, name+"="+showList(sb.takeWithin(sends, 300*time.Millisecond)))
 			continue
 		}
 		n := sends
@@ -426,9 +505,16 @@ func (r *real) close() {
 	if r.probeCancel != nil {
 		r.probeCancel()
 	}
-	for _, s := range r.subs {
+	for name, s := range r.subs {
 		s.cancel()
+		if _, h := r.held[name]; h {
+			select {
+			case s.resumeCh <- struct{}{}:
+			case <-time.After(waitBound):
+			}
+		}
 	}
+	r.held = nil
 	for _, p := range r.pids {
 		p.shadow.cancel()
 	}
@@ -897,4 +983,45 @@ func (r *real) pidDeliveries(sb *realSub, pi *pidInfo, sends int) string {
 		out += "$"
 	}
 	return out
+}
+
+// hold: the consumer of the subscription stops receiving (it is outside any receive from then on).
+func (r *real) hold(o Op) string {
+	name, _ := o.opt("name")
+	sb, ok := r.subs[name]
+	if !ok || sb.holdCh == nil {
+		return "!no-such-subscription"
+	}
+	select {
+	case sb.holdCh <- struct{}{}:
+	case <-time.After(waitBound):
+		return "!hold-timeout"
+	}
+	if r.held == nil {
+		r.held, r.heldMaybe = map[string]int{}, map[string]int{}
+	}
+	r.held[name], r.heldMaybe[name] = 0, 0
+	return "ok"
+}
+
+// resume: the consumer receives again; returns what the forwarder was holding for it.
+func (r *real) resume(o Op) string {
+	name, _ := o.opt("name")
+	sb, ok := r.subs[name]
+	n, h := r.held[name]
+	if !ok || !h {
+		return "!no-such-subscription"
+	}
+	delete(r.held, name)
+	select {
+	case sb.resumeCh <- struct{}{}:
+	case <-time.After(waitBound):
+		return "!resume-timeout"
+	}
+	got := sb.take(n)
+	if k := r.heldMaybe[name]; k > 0 && (len(got) == 0 || !strings.HasPrefix(got[len(got)-1], "!")) {
+		// the forwarder hands over what it holds at once: anything more is there within moments
+		got = append(got, sb.takeWithin(k, 300*time.Millisecond)...)
+	}
+	return name + "=" + showList(got)
 }
